@@ -250,6 +250,32 @@ def run(ctx):
             b = [(sh['label'], [(st['inv'], st['prop'], tuple(st['types']), st['card']) for st in sh['stmts']]) for sh in r2[1]['shapes']]
             if a != b or any(st['card'] in '?*' for sh in r1[1]['shapes'] for st in sh['stmts']):
                 viol.append({"what": "with the mode off a cardinality was rewritten (or depends on allow_opt_cardinality)", **pipeline.case_json(g, c1)})
+    # a Shaper that has already answered at a higher threshold: the schema of a later call (threshold 0, all-compliant) must still be
+    # respected by every instance - what the earlier call filtered must not be missing from the later one
+    from shexer.shaper import Shaper as _Sh3
+    from shexer import consts as _C3
+    import impl as _impl3, shex_text as _st3
+    stats["later_call_cases"] = 0
+    for ci in range(0, min(len(cases), 400 if ctx.tier == "quick" else 4000), 5):
+        (g, cfg), strict = cases[ci], domain[ci]
+        if not strict:
+            continue
+        kw = _impl3.shaper_kwargs(cfg)
+        try:
+            sh_ = _Sh3(raw_graph=to_nt(g), input_format=_C3.NT, **kw)
+            sh_.shex_graph(string_output=True, acceptance_threshold=rng.choice([0.5, 0.34, 0.75]))
+            text2 = sh_.shex_graph(string_output=True, acceptance_threshold=0)
+            parsed2 = _st3.parse(text2)
+        except Exception as e:
+            viol.append({"what": "second call on one Shaper (threshold t > 0, then 0): %s %s" % (type(e).__name__, str(e)[:120]), **pipeline.case_json(g, cfg)})
+            continue
+        stats["later_call_cases"] += 1
+        for e in conformance_errors(g, dict(cfg, th=[0, 1]), parsed2):
+            obs = {"kind": "conformance", "error": e, "triples": g, "cfg": cfg, "parsed": parsed2, "strict": strict}
+            if not F.match(kf, obs):
+                viol.append({"what": "after an earlier call at a higher threshold, a node does not conform to the shape of the call at threshold 0: " + e['kind'],
+                             "error": e, "strict_domain": strict, "shexc": text2, **pipeline.case_json(g, dict(cfg, th=[0, 1]))})
+                break
     stats.update(dangling_entry_cases=0, dangling_entries=0, dangling_with_inverse=0)
     dangling_entries_family(ctx, random.Random(ctx.seed * 7919 + 33), 120 if ctx.tier == "quick" else 2500, kf, stats, viol, reproduced)
     # shape-map targets: the family of C10 (selection, shapes, exact figures), with inverse paths and removal of empty shapes as generated
